@@ -159,7 +159,22 @@ func TestVerifC02Gating(t *testing.T) {
 						end = weeks[open[rapid.IntRange(0, len(open)-1).Draw(t, "whichWeek")]].end
 					}
 				}
-				if rapid.IntRange(0, 5).Draw(t, "endRecordedEastOfUTC") == 0 {
+				// with mode off, often a further file of a week that was reported and acknowledged earlier
+				forceLate := false
+				if !unreadable && mode == "off" {
+					var acked []string
+					for wk, w := range weeks {
+						if w.acked {
+							acked = append(acked, wk)
+						}
+					}
+					sort.Strings(acked)
+					if len(acked) > 0 && rapid.Bool().Draw(t, "lateFileWhileOff") {
+						end = weeks[acked[rapid.IntRange(0, len(acked)-1).Draw(t, "lateWeek")]].end
+						forceLate = true
+					}
+				}
+				if !forceLate && rapid.IntRange(0, 5).Draw(t, "endRecordedEastOfUTC") == 0 {
 					// a file that records its span with an offset east of UTC: its week is named by the recorded date,
 					// which can be tomorrow's UTC date although the end instant has passed
 					z := time.FixedZone("", rapid.SampledFrom([]int{9, 14, 5}).Draw(t, "endZoneHours")*3600)
@@ -167,10 +182,21 @@ func TestVerifC02Gating(t *testing.T) {
 					end = time.Date(d.Year(), d.Month(), d.Day(), 0, 0, 0, 0, z)
 					vstats.Label("endRecordedEastOfUTC")
 				}
+				lateFile := false
 				if w := weeks[end.Format("2006-01-02")]; w != nil && (w.built || !w.end.Equal(end)) {
-					// the week already has a report (adding files to it is C07's subject), or its files record
-					// another end instant under the same date (one week name, two expiry instants: not modelled here)
-					continue
+					// the week already has a report (what happens to further files of it is C07's subject), or its
+					// files record another end instant under the same date (one week name, two expiry instants: not
+					// modelled here)
+					// (only for weeks whose report certainly still exists in some form: acknowledged, i.e. recorded in upload/,
+					// or built by the uploader from files, i.e. with a local.<week>.json; a leftover written by the harness
+					// may have been refused and discarded, after which the week is open again)
+					if !w.built || !w.end.Equal(end) || !(w.acked || len(w.files) > 0 && !w.leftoverOnly) || (!forceLate && rapid.Bool().Draw(t, "noLateFile")) {
+						continue
+					}
+					// ... but the file may be there: a program that ran on into the next week leaves its file behind
+					// after the week's report was made. The model ignores it; with mode off it must stay untouched.
+					lateFile = true
+					vstats.Label("lateFileForReportedWeek")
 				}
 				span := rapid.IntRange(1, 7).Draw(t, "spanDays")
 				begin := end.AddDate(0, 0, -span)
@@ -189,6 +215,9 @@ func TestVerifC02Gating(t *testing.T) {
 					Base: fmt.Sprintf("%sgo@go1.22.1-go1.22.1-linux-amd64-%s_%d.v1.count", rapid.SampledFrom([]string{"", "a", "m", "z"}).Draw(t, "namePrefix"), begin.Format("2006-01-02"), nfile)}
 				f.Bytes = vgen.EncodeCountFile(f)
 				vuWriteFiles(dir, []*vmodel.CountFile{f})
+				if lateFile {
+					continue
+				}
 				wk := f.Week()
 				if weeks[wk] == nil {
 					weeks[wk] = &c02Week{end: end}
